@@ -14,15 +14,75 @@ type localCell struct {
 	elem  types.Type
 }
 
+// rootAlloc returns the Alloc an address expression is derived from, if any.
+func rootAlloc(v ssa.Value) *ssa.Alloc {
+	for i := 0; i < 16; i++ {
+		switch t := v.(type) {
+		case *ssa.Alloc:
+			return t
+		case *ssa.FieldAddr:
+			v = t.X
+		case *ssa.IndexAddr:
+			if _, ok := t.X.Type().Underlying().(*types.Pointer); ok {
+				v = t.X
+			} else {
+				return nil
+			}
+		default:
+			return nil
+		}
+	}
+	return nil
+}
+
+// markEscapes records, flow-sensitively, the local cells whose address leaves
+// the function body at this instruction: passed to a call, stored, put in an
+// interface, merged, returned, sent, or captured by a closure that is itself
+// passed on. Loads, stores *to* the cell, derived field/element addresses and
+// closures that are only called directly or deferred do not count.
+func (fr *Frame) markEscapes(ins ssa.Instruction) {
+	if fr.escaped == nil {
+		fr.escaped = map[*ssa.Alloc]bool{}
+	}
+	switch t := ins.(type) {
+	case *ssa.DebugRef, *ssa.FieldAddr, *ssa.IndexAddr:
+		return
+	case *ssa.UnOp:
+		return
+	case *ssa.Store:
+		if a := rootAlloc(t.Val); a != nil {
+			fr.escaped[a] = true
+		}
+		return
+	case *ssa.MakeClosure:
+		if closureEscapes(t) {
+			for _, b := range t.Bindings {
+				if a := rootAlloc(b); a != nil {
+					fr.escaped[a] = true
+				}
+			}
+		}
+		return
+	}
+	for _, op := range ins.Operands(nil) {
+		if op == nil || *op == nil {
+			continue
+		}
+		if a := rootAlloc(*op); a != nil {
+			fr.escaped[a] = true
+		}
+	}
+}
+
 // restoreLocals re-establishes, after a whole-heap havoc (a callee or loop that
 // "modifies heaps", or an abstracted call), the contents of the local cells
-// whose address provably never leaves the function (see localEscapes): no callee
-// can reach them. With loopBlocks set, cells stored to inside the loop are
-// excluded as well.
+// whose address has not left the function so far: no callee can reach them.
+// With loopBlocks set, cells whose address escapes anywhere in the loop, or that
+// are stored to inside the loop, are excluded as well.
 func (e *Enc) restoreLocals(fr *Frame, pre, post *State, loopBlocks map[*ssa.BasicBlock]bool) {
 	for f := fr; f != nil; f = f.parent {
 		for _, lc := range f.locals {
-			if localEscapes(lc.alloc) {
+			if f.escaped[lc.alloc] {
 				continue
 			}
 			if loopBlocks != nil && f == fr && storedIn(lc.alloc, loopBlocks) {
@@ -46,7 +106,6 @@ func (e *Enc) restoreLocals(fr *Frame, pre, post *State, loopBlocks map[*ssa.Bas
 			}
 			e.B.assume(fmt.Sprintf("(= (select %s %s) (select %s %s))", now, lc.ref, was, lc.ref))
 		}
-		// inner frames' loops do not cover the caller's blocks
 		loopBlocks = nil
 	}
 }
